@@ -217,7 +217,7 @@ FUNCTIONS.update({
     cls='LoadBalancerSink', params={'next_provider': 'NextProvider', 'sink_properties': 'SinkPropsX', 'global_properties': 'any'}, returns='none',
     requires=['allocated(sink_properties) and allocated(sink_properties.server_set_provider)'],
     ensures=['allocated(self._servers) and fresh(self._servers)', 'forall(e, "any", not has_key(self._servers, e))', 'self.__open_ar is None',
-             'allocated(self.__init_done) and not self.__init_done.flag', 'self._state == ChannelState.Idle'],
+             'allocated(self.__init_done) and fresh(self.__init_done) and not self.__init_done.flag', 'self._state == ChannelState.Idle'],
     modifies=['LoadBalancerSink._properties', 'LoadBalancerSink._log', 'LoadBalancerSink.__init_done', 'LoadBalancerSink.__open_ar', 'LoadBalancerSink.__open_greenlet',
               'LoadBalancerSink._server_set_provider', 'LoadBalancerSink._endpoint_name', 'LoadBalancerSink._next_sink_provider', 'LoadBalancerSink._state', 'LoadBalancerSink._servers',
               'dict[any,ChannelFactory]', 'Event.flag', 'ClientMessageSink._on_faulted', 'MessageSink._next', 'Observable.value', 'Observable.g_nsubs', '$cls'],
@@ -230,7 +230,7 @@ FUNCTIONS.update({
     # the node universe of the invariant is per balancer (C03 assumption): at construction no node exists yet
     requires=['allocated(sink_properties) and allocated(sink_properties.server_set_provider)', 'forall_ref(r, Node, not allocated(r), r.index)',
               'forall_ref(r, Node, not r.g_inq, r.g_inq)'],      # initial ghost state: nobody is on a down list
-    ensures=['HeapMem(self)', 'self._size == 0', 'not self._open', 'self.__open_ar is None', 'allocated(self.__init_done) and not self.__init_done.flag',
+    ensures=['HeapMem(self)', 'self._size == 0', 'not self._open', 'self.__open_ar is None', 'allocated(self.__init_done) and fresh(self.__init_done) and not self.__init_done.flag',
              # the only node in existence is the sentinel, with a channel of its own
              'forall_ref(r, Node, implies(allocated(r), r == self._heap[0]), r.channel)', 'allocated(self._heap[0].channel)'],
     modifies=['LoadBalancerSink._properties', 'LoadBalancerSink._log', 'LoadBalancerSink.__init_done', 'LoadBalancerSink.__open_ar', 'LoadBalancerSink.__open_greenlet',
